@@ -602,7 +602,7 @@ class Entry(Suite):
         out += malformed_stream(rng, d0, budget)
         if budget != "quick":
             out += malformed_stream(rng, d1, budget)
-        nconf = {"quick": 40, "thorough": 400, "search": 120}[budget]
+        nconf = {"quick": 32, "thorough": 400, "search": 120}[budget]
         for i in range(nconf):
             if i % 5 == 4:
                 doc, bare = gen_bare_doc(rng)
